@@ -252,6 +252,8 @@ def _dtname(dt):
 
 def _elem_canon(e, dt, model):
     if dt.kind == 'O':
+        if isinstance(e, _np.ndarray) and e.ndim == 0:
+            e = e.item()
         return canon(e, model)
     c = canon(e, model)
     if isinstance(c, list) and len(c) == 2:
@@ -301,6 +303,30 @@ class Contract:
     def clause_props(self, clause):
         ps = list(self.props.get(clause, ())) + list(self.props.get('*', ()))
         return ps
+
+
+_OPEN = None
+
+def open_findings():
+    """ids of the recorded (not repaired) genuine defects: their input regions are excluded from the
+    corresponding preconditions and reported as KNOWN-FINDING lines instead"""
+    global _OPEN
+    if _OPEN is None:
+        fn = os.path.join(os.path.dirname(os.path.dirname(os.path.abspath(__file__))), 'known_findings.json')
+        _OPEN = set()
+        if os.path.exists(fn):
+            with open(fn) as f:
+                for e in json.load(f).get('findings', []):
+                    if e.get('status') == 'open':
+                        _OPEN.add(e['id'])
+    return _OPEN
+
+
+def assume_not_known(D, fid, region):
+    """precondition: stay outside the input region of the open known finding `fid`"""
+    if fid in open_findings():
+        from specs.core import Not
+        D.assume(Not(region))
 
 
 def _run_guarded(c, cfg, P, inp):
